@@ -17,9 +17,12 @@ fn main() {
             bad += 1;
         }
     };
+    // optional arguments: only the demonstrations whose id starts with one of them
+    let only: Vec<String> = std::env::args().skip(1).collect();
+    let want = |id: &str| only.is_empty() || only.iter().any(|o| id.starts_with(o.as_str()));
 
     // F-C13-1: try_send after every receiver is gone
-    {
+    if want("F-C13-1") {
         let (tx, rx) = mpmc_queue::<u32>(4);
         drop(rx);
         let r = tx.try_send(7);
@@ -36,7 +39,7 @@ fn main() {
     unsafe {
         ledger::ON = true;
     }
-    {
+    if want("F-C17-1") {
         let base = live();
         {
             let (tx, rx) = broadcast_queue::<u64>(4);
@@ -63,7 +66,7 @@ fn main() {
     }
 
     // F-C17-4: memory held must not grow with the number of clone/drop + add_stream/drop cycles
-    {
+    if want("F-C17-4") {
         let (tx, rx) = broadcast_queue::<u64>(4);
         let keep = rx.clone(); // a non-last handle of the stream is dropped below, early
         drop(keep);
@@ -86,7 +89,7 @@ fn main() {
         report(b <= a + 64, "F-C17-4", format!("live allocations after 200 cycles: {}, after 2200 cycles: {} (an earlier drop of a non-last handle of the stream)", a, b));
     }
     // F-C14-1: space freed through the DIRECT try_recv of a futures receiver must wake a parked sender
-    {
+    if want("F-C14-1") {
         use futures::executor::{self, Notify};
         use futures::{Async, AsyncSink, Sink};
         use std::sync::atomic::{AtomicUsize, Ordering};
@@ -117,7 +120,7 @@ fn main() {
     }
 
     // F-C15-1: the direct blocking recv() of a futures receiver on an empty queue must block, not panic
-    {
+    if want("F-C15-1") {
         let (tx, rx) = mpmc_fut_queue::<u32>(4);
         let h = std::thread::spawn(move || {
             std::panic::catch_unwind(std::panic::AssertUnwindSafe(|| rx.recv())).map_err(|_| ())
@@ -129,7 +132,7 @@ fn main() {
     }
 
     // F-C15-2: poll on a fresh, never-wrapped, empty queue must return NotReady (not spin inside the call)
-    {
+    if want("F-C15-2") {
         use futures::executor::{self, Notify};
         use futures::Stream;
         use std::sync::mpsc::channel;
@@ -153,7 +156,7 @@ fn main() {
     }
 
     // F-C08-2: YieldingWait with a zero yield-spin count must still notice the value
-    {
+    if want("F-C08-2") {
         use std::sync::mpsc::channel;
         let (tx, rx) = broadcast_queue_with::<u32, wait::YieldingWait>(4, wait::YieldingWait::with_spins(0, 0));
         let (done_tx, done_rx) = channel();
@@ -171,7 +174,7 @@ fn main() {
     // NEW count and stays blocked although the next value (which only it can still take) is in the queue.
     // Real threads, real operations; thread A is suspended just before its 6th shared-memory operation of
     // recv() (the `load_count` after the failed try_recv) by the schedule hook of the atomic shim.
-    {
+    if want("F-C08-1") {
         use multiqueue2::verif_hooks::sched;
         use std::sync::mpsc::channel;
         let (tx, rx_a) = mpmc_queue_with::<u64, wait::BlockingWait>(4, wait::BlockingWait::with_spins(0, 0));
@@ -211,7 +214,7 @@ fn main() {
     // the producer, and then finds every sender gone, reports the end although accepted values are still
     // undelivered to its stream.  Real threads; thread A is suspended just before its 5th shared-memory
     // operation of try_recv (the first look at the slot's tag).
-    {
+    if want("F-C07-1") {
         use multiqueue2::verif_hooks::sched;
         use std::sync::mpsc::channel;
         use std::sync::mpsc::TryRecvError;
@@ -247,7 +250,7 @@ fn main() {
     // woken when that consumer unpins -- also when the consumer loses its item to a sibling and its poll
     // ends in NotReady (no value received, but the obstacle is gone).  Public API only; the payload's Clone
     // is held open by the test.
-    {
+    if want("F-C14-2") {
         use futures::executor::{self, Notify};
         use futures::{Async, AsyncSink};
         use std::sync::atomic::{AtomicBool, AtomicUsize, Ordering::SeqCst};
@@ -318,7 +321,7 @@ fn main() {
     // stream list is published later; in between a sibling consumer of the parent and the producer can
     // move on by more than the ring size.  Real threads; thread A is suspended just before the
     // compare-exchange that publishes the new list (its 4th shared-memory operation of add_stream).
-    {
+    if want("F-C10-1") {
         use multiqueue2::verif_hooks::sched;
         use std::sync::mpsc::channel;
         let (tx, rx_a) = broadcast_queue::<u64>(2);
